@@ -1,6 +1,5 @@
-(* Preservation of the invariant by registration (addConn, addDialer), the peer's reads, ResetPollerEvent, the return of
-   the dial callback and close. RegisterDialNow (a dial whose connect(2) completed at once) is covered in LT and ET only:
-   see dialnow_oneshot_gap in WakeOld.v. *)
+(* Preservation of the invariant by registration (addConn, addDialer with a pending or a completed connect), the peer's
+   reads and close. *)
 From Coq Require Import List Arith Lia Bool.
 From WakeC Require Import WakeModel WakeInv.
 
@@ -19,6 +18,8 @@ Proof. start. go. Qed.
 Lemma inv_RegisterDialNow_LT s : Inv LT s -> Inv LT (step LT s RegisterDialNow).
 Proof. start. go. Qed.
 Lemma inv_RegisterDialNow_ET s : Inv ET s -> Inv ET (step ET s RegisterDialNow).
+Proof. start. go. Qed.
+Lemma inv_RegisterDialNow_ETOS s : Inv ETOS s -> Inv ETOS (step ETOS s RegisterDialNow).
 Proof. start. go. Qed.
 Lemma inv_PeerRead_LT k s : Inv LT s -> Inv LT (step LT s (PeerRead k)).
 Proof. start. go. Qed.
